@@ -32,17 +32,24 @@ def demo : Node :=
 
 /-! ## 1. the stack machine over the element chain is the structural recursion -/
 
-/-- Refinement, for every tree, formatter and class table: `decode()` — the explicit tag stack of `_event_stream`
-    over the pre-order chain of elements, closing tags while the next element's parent is not the stack top, each
-    event formatted by `_format_tag`/`output_ready` and the pieces joined — produces exactly the text the obvious
-    recursion over the tree produces. Every start tag is closed exactly once, after its last descendant. -/
+/-- **`_event_stream` is the structural recursion**, for every tree: the explicit tag stack over the pre-order chain
+    of elements — popping and yielding END while the next element's parent is not the stack top, EMPTY for a
+    childless tag that can be empty, START + push for any other tag, STRING for a string, and the final unwinding —
+    yields exactly `specEvents`: per node `EMPTY`, or `START`, the children's events in order, `END`. Every start tag
+    is closed exactly once, after its last descendant and before its next sibling. -/
+theorem event_stream_eq_spec (n : Node) : eventStream (flatten none none 0 n) = specEvents none none 0 n :=
+  eventStream_flatten n none none 0 (by simp)
+
+example : (eventStream (flatten none none 0 demo)).map (fun e => (e.1, e.2.id)) =
+    [(.start, 0), (.empty, 1), (.string, 2), (.string, 3), (.start, 4), (.string, 5), (.stop, 4), (.start, 6), (.stop, 6),
+     (.stop, 0)] := by decide
+
+/-- Refinement, for every tree, formatter and class table: `decode()` — the event stream above, each event formatted
+    by `_format_tag`/`output_ready` and the pieces joined — produces exactly the text the obvious recursion over the
+    tree produces. -/
 theorem decode_eq_render (ci : SCls → ClsInfo) (f : Fmt) (n : Node) :
     decodeNode ci f n = renderSpec ci f none n := by
-  obtain ⟨S, acc, h1, h2, _⟩ := fold_node ci f n none none 0 [] [] [] (by simp) trivial (by simp)
-  simp only [decodeNode, decodeImpl, eventStream]
-  simp only [List.append_nil] at h1
-  rw [h1, h2]
-  simp [closes, pieces]
+  simp only [decodeNode, decodeImpl, event_stream_eq_spec, pieces_specEvents]
 
 example : decodeNode liveClsInfo minimalHtml demo =
     ofS "<div class=\"a b\" id='x\"'><br/>a&lt;b<!--c--><script>1<2</script><p></p></div>" := by decide
@@ -51,12 +58,8 @@ example : decodeNode liveClsInfo minimalHtml demo =
     never on the stack): the renderings of the children, concatenated. -/
 theorem decode_contents_eq (ci : SCls → ClsInfo) (f : Fmt) (i : TagInfo) (kids : List Node) :
     decodeContents ci f (.tag i kids) = renderL ci f (some i.name) kids := by
-  obtain ⟨S, acc, h1, h2, _⟩ := fold_forest ci f kids (some 0) (some i.name) 1 [] [] [] (by simp) trivial
-    (by intro q hq; cases hq; omega)
-  simp only [decodeContents, decodeImpl, eventStream, flatten, List.tail_cons]
-  simp only [List.append_nil] at h1
-  rw [h1, h2]
-  simp [closes, pieces]
+  simp only [decodeContents, decodeImpl, flatten, List.tail_cons]
+  rw [eventStream_flattenL kids (some 0) (some i.name) 1 (by intro q hq; cases hq; omega), pieces_specEventsL]
 
 example : decodeContents liveClsInfo minimalHtml (.tag (tg "p") [.str .navigable (ofS "&"), .tag (tg "b") []]) =
     ofS "&amp;<b></b>" := by decide
@@ -74,6 +77,28 @@ theorem never_empty_with_children (ci : SCls → ClsInfo) (f : Fmt) (i : TagInfo
   rw [decode_eq_render]
   have : kids.isEmpty = false := by cases kids <;> simp_all
   simp [renderSpec, this, formatTag, hh]
+
+/-- **For every element of every tree**: in the event stream of the whole tree an `EMPTY_ELEMENT` event — the only
+    event whose piece carries the formatter's void prefix — is yielded only for an element with no contents whose
+    `can_be_empty_element` is true; every other tag gets `START` and `END`, every string `STRING`. -/
+theorem events_classified (t : Node) : ∀ e ∈ eventStream (flatten none none 0 t), evOK e = true := by
+  rw [event_stream_eq_spec]
+  exact specEvents_ok t none none 0
+
+/-- … hence, whatever the depth: the piece `decode()` of the whole tree emits for a tag with at least one child is
+    `_format_tag` *without* the void slash — `<prefix:name attrs>` for START, `</prefix:name>` for END. -/
+theorem never_empty_everywhere (ci : SCls → ClsInfo) (f : Fmt) (t : Node) (e : Ev) (c : Item) (i : TagInfo) (nk : Nat)
+    (he : (e, c) ∈ eventStream (flatten none none 0 t)) (hc : c.pl = .tag i nk) (hk : nk ≠ 0) :
+    (e = .start ∨ e = .stop) ∧ piece ci f (e, c) = formatTag f i false (e == .start) := by
+  have h := events_classified t (e, c) he
+  have hnk : (nk == 0) = false := by simpa using hk
+  cases e with
+  | start => exact ⟨Or.inl rfl, by simp [piece, hc, Payload.isEmptyElement, hnk]⟩
+  | stop => exact ⟨Or.inr rfl, by simp [piece, hc, Payload.isEmptyElement, hnk]; rfl⟩
+  | empty => simp [evOK, hc, hnk] at h
+  | string => simp [evOK, hc] at h
+
+example : ∀ e ∈ eventStream (flatten none none 0 demo), evOK e = true := events_classified demo
 
 /-- the complementary case, for reference: a childless element is `<x/>` (with the formatter's prefix) exactly when
     `can_be_empty_element` is true, else `<x></x>` -/
@@ -95,9 +120,20 @@ example : decodeNode liveClsInfo minimalHtml (.tag (tg "br" [] false) []) = ofS 
     PREFIX and SUFFIX of its class) — for every substitution function. -/
 theorem cdata_verbatim (ci : SCls → ClsInfo) (f : Fmt) (pn : PStr) (c : SCls) (s : PStr)
     (h : f.cdataTags.contains pn = true) :
-    outputReady ci f (some pn) c s = (ci c).pre ++ s ++ (ci c).suf := by
-  simp only [outputReady, substitute, h]
-  cases (ci c).preformatted <;> cases f.subst <;> simp
+    outputReady ci f (some pn) c s = (ci c).pre ++ s ++ (ci c).suf :=
+  outputReady_cdata ci f pn c s h
+
+/-- **For every cdata-containing element of every tree, with any children**: its contents are rendered as the
+    concatenation of its children where every string child — whatever its class, whatever the substitution function —
+    is emitted verbatim between its class' PREFIX and SUFFIX (element children render as usual). -/
+theorem cdata_verbatim_children (ci : SCls → ClsInfo) (f : Fmt) (i : TagInfo) (kids : List Node)
+    (h : f.cdataTags.contains i.name = true) :
+    decodeContents ci f (.tag i kids) = kids.flatMap (rawKid ci f i.name) := by
+  rw [decode_contents_eq, renderL_cdata ci f i.name h]
+
+example : decodeContents liveClsInfo minimalHtml
+    (.tag (tg "style") [.str .stylesheet (ofS "a>b{"), .str .navigable (ofS "&}"), .str .comment (ofS "<c>")]) =
+    ofS "a>b{&}<!--<c>-->" := by decide
 
 /-- every formatter of the live HTML registry (`None`, 'minimal', 'html', 'html5', 'html5-4.12') treats exactly
     `script` and `style` as cdata-containing; every XML one treats no tag so -/
